@@ -94,15 +94,14 @@ def bfs(env, inits, on_state=None, on_edge=None, max_states=200000, actions=None
             g.parent[kk] = None
             depth[kk] = 0
             queued[kk] = 1
-            frontier.append((k, st, new_id(None, k, None, None)))
+            frontier.append((k, kk, st, new_id(None, k, None, None)))
             if on_state:
                 m = on_state(k, st, g)
                 if m:
                     problems.append((k, None, None, m, next_id[0]))
     actions = list(actions or env.action_space.actions)
     while frontier:
-        k, st, oid = frontier.popleft()
-        kk = ext(k, st)
+        k, kk, st, oid = frontier.popleft()  # kk was fixed when the object was queued (hooks may prime caches later)
         for a in (actions if action_filter is None else action_filter(k, actions)):
 
             def run(rng, st=st, a=a):
@@ -143,7 +142,7 @@ def bfs(env, inits, on_state=None, on_edge=None, max_states=200000, actions=None
                 # along the way, so history-dependent behaviour (invisible to the canonical key) meets the same oracles
                 if (not done or expand_terminal) and queued.get(kk2, 0) < lineages:
                     queued[kk2] = queued.get(kk2, 0) + 1
-                    frontier.append((k2, st2, new_id(oid, None, a.name, choices)))
+                    frontier.append((k2, kk2, st2, new_id(oid, None, a.name, choices)))
             if explore.capped:
                 g.capped = True
     return g, problems
